@@ -220,7 +220,7 @@ class EntryPoints(Obligation):
     hash_order='fixed'
     def __init__(self,seed=0,known=(),**kw):
         self.seed=seed
-        self.bounds={'documents':'a signed link block and a layout block (valid), and each with one member removed (invalid)','after the document':'nothing / non-whitespace bytes (a second document, a stray bracket)',
+        self.bounds={'documents':'a signed link block and a layout block: valid; with one member removed (invalid); with a struct member written twice (text entry points only: a tree cannot hold it); with a map member written twice','after the document':'nothing / non-whitespace bytes (a second document, a stray bracket)',
                      'entry points':'Json::from_reader, Json::from_slice (text) and Json::deserialize (tree; only without trailing bytes)'}
         self.witnesses=['accepted_everywhere','rejected_everywhere']; self.seen=set()
     def setup(self,eng,tier):
@@ -234,7 +234,7 @@ class EntryPoints(Obligation):
             for fn,chan in ((self.f_reader,'reader'),(self.f_slice,'borrowed')):
                 r=eng.call_fn(run,fn,[Opaque('JsonDoc',{'v':clone_val(v),'chan':chan,'trailing':trailing})])
                 outs.append(deref(r).vname=='Ok')
-            if not trailing:
+            if not trailing and not run.ghost.get('dup_member'):
                 r=eng.call_fn(run,self.f_value,[Ref(Cell(clone_val(v)))]); outs.append(deref(r).vname=='Ok')
             return outs
         return go
@@ -242,12 +242,25 @@ class EntryPoints(Obligation):
         from .C14 import ADV_DOCS, py_to_value
         name=['metablock_link','metablock_layout'][run.pick(2,'doc')]
         doc=ADV_DOCS[name][1]()
-        if run.pick(2,'broken'): doc={k:x for k,x in doc.items() if k!='signed'}
+        from .C14 import ObjPairs, to_value_ordered
+        shape=run.pick(4,'shape')      # 0 valid, 1 a member missing, 2 a struct member written twice, 3 a map member written twice
+        run.ghost['dup_member']=shape in (2,3)
+        if shape==1: doc={k:x for k,x in doc.items() if k!='signed'}
+        if shape==2:
+            inner=doc['signed']; k0='name' if 'name' in inner else 'readme'
+            doc=dict(doc,signed=ObjPairs([(list(k.encode()),x) for k,x in sorted(inner.items())]+[(list(k0.encode()),'other')]))
+        if shape==3:
+            inner=doc['signed']; k0='materials' if 'materials' in inner else 'keys'
+            m=inner[k0]; kk=sorted(m)[0]
+            doc=dict(doc,signed=dict(inner,**{k0:ObjPairs([(list(k.encode()),x) for k,x in sorted(m.items())]+[(list(kk.encode()),m[kk])])}))
         trailing=bool(run.pick(2,'trailing'))
-        return [py_to_value(doc),trailing],{'doc':doc,'trailing':trailing}
+        v=to_value_ordered(doc) if shape in (2,3) else py_to_value(doc)
+        class _M:       # the documents of this obligation are concrete: a "model" that evaluates constants
+            def eval(self,t,model_completion=True): return z3.simplify(t)
+        return [v,trailing],{'doc':json_py(v,_M()) if shape in (2,3) else doc,'trailing':trailing,'dup':shape in (2,3)}
     def check(self,run,out,g):
         rec={'outcome':'?','viol':None,'wit':[],'sample':None,'obl':1}
-        scn={'kind':'entry_points','doc':g['doc'],'trailing':g['trailing']}
+        scn={'kind':'entry_points','doc':g['doc'],'trailing':g['trailing'],'text_order':bool(g.get('dup'))}
         if out[0]!='ret':
             rec['outcome']='panic'; rec['viol']={'kind':'panic','known_key':None,'scenario':scn,'predicted':'panic','what':'an interchange entry point panics: '+str(out[1])[:200]}; return rec
         outs=out[1]; pred='/'.join('ok' if o else 'err' for o in outs); rec['outcome']=pred
